@@ -116,8 +116,13 @@ def dag_menu(cols, roles, depth, hist, rich=True):
                     items.append({"op": "drop_columns", "columns": [newc[-1]]})
         if rich or depth == 1:
             items.append({"op": "order_rows", "columns": [A], "reverse": [], "limit": 2})
-        if rich:
+        if rich or depth == 1:
             items.append({"op": "select_rows", "expr": O(">", C(A), V(1))})
+    last = hist["steps"][-1] if hist["steps"] else None
+    if depth >= 2 and last is not None and last["op"] in ("select_rows", "order_rows"):
+        # the textually identical last step applied to a different source: the state two steps back
+        # (C04-r4m1: a common-table-expression key that identifies the step but not what it reads)
+        items.append({"op": "concat_rows", "b": {"prefix": depth - 2, "steps": [last]}, "id_column": None})
     if depth >= 1 and K:
         k = K[0]
         for p in sorted({0, depth - 1, depth}):
